@@ -38,7 +38,7 @@ pub fn generate(rng: &mut Rng, _tier: &str) -> Scenario {
             let text = catch_unwind(AssertUnwindSafe(|| if rng_bool(&val) { toml::to_string(&w).ok() } else { toml::to_string_pretty(&w).ok() })).ok().flatten();
             if let Some(text) = text {
                 let mut sc = Scenario::new("C15", "A", ty);
-                sc.doc = Some(DocSpec { text, tree: None, spans: vec![], source: "serialized".into(), plan: None });
+                sc.doc = Some(DocSpec { text, tree: None, spans: vec![], source: "serialized".into(), plan: None, headers: vec![] });
                 sc.fault = FaultSpec::VisEvery;
                 return sc;
             }
